@@ -181,18 +181,51 @@ theorem float_text_of_wf (s : Spec) (bits : Nat)
     floatModelText s bits = fmtFloat s bits :=
   float_text_partial s bits (fun hs => planText_bodyPlan _ (h hs))
 
-/-- **C09, `%f` and `%F` for every value, precision, width and flag set**: the specification's fixed
-notation is a well-formed number (`fixedText_wf`), so the model's text is the specification's with no
-side condition. -/
-theorem float_text_fixed (s : Spec) (bits : Nat) (hc : s.conv = 'f' ∨ s.conv = 'F') :
-    floatModelText s bits = fmtFloat s bits := by
-  apply float_text_of_wf
-  intro hfin
-  unfold floatParts at hfin ⊢
-  simp only at hfin ⊢
-  cases hsp : (decode bits).special with
-  | some nan => rw [hsp] at hfin; simp at hfin
-  | none => simp only [if_pos hc]; exact fixedText_wf _ _ _ _
+/-- **C09, floating point conversions, every value, conversion, precision, width and flag set.**  The
+specification's text of a finite value is always a well-formed number (`floatParts_wf`: fixed,
+exponent and `%g` styles with their zero stripping), so the model's plan of output steps spells it
+and the model's text is the specification's with no side condition. -/
+theorem float_text (s : Spec) (bits : Nat) : floatModelText s bits = fmtFloat s bits :=
+  float_text_of_wf s bits (floatParts_wf s bits)
+
+theorem convText_spec (s : Spec) (a : Option Arg) (t : Bytes) (h : convText floatModelText s a = some t) :
+    specConv s a = some t := by
+  cases a with
+  | none => exact convTextNF_spec s none t h
+  | some a =>
+    cases a with
+    | dbl bits =>
+      simp only [convText] at h
+      simp only [specConv]
+      split at h
+      · rename_i hc; simp only [formatOne, if_pos hc, ← float_text]; exact h
+      · cases h
+    | str str => exact convTextNF_spec s (some (.str str)) t h
+    | gstr g => exact convTextNF_spec s (some (.gstr g)) t h
+    | int raw => exact convTextNF_spec s (some (.int raw)) t h
+
+/-- **C09, all conversions.**  `formatter_meets_spec` extended to formats that also contain
+`f F e E g G`: for every format, argument list and destination, the text the model of the formatter
+produces is the specification's, the return value is its length, and a large enough destination
+holds exactly that text.  (Outside the theorem: that the real code's Ryu digit generation yields
+the specification's digits — compared on every case of the correspondence run.) -/
+theorem formatter_meets_spec_all (fmt : Bytes) (args : List Arg) (out dest : Bytes)
+    (hg : genFormat (convText floatModelText) (fmt.length + 1) fmt args = some out) :
+    specFormat (fmt.length + 1) fmt args = some out ∧
+    ∃ p, vsnprintf (fmt.length + 1) { data := dest, length := 0 } fmt args = some (some p) ∧
+      p.length = out.length ∧ (out.length ≤ dest.length → p.data.take out.length = out) := by
+  refine ⟨genFormat_mono _ _ convText_spec _ _ _ _ hg, ?_⟩
+  have h0 : Agrees ({ data := dest, length := 0 } : PF) [] := ⟨rfl, fun i _ hi => by simp at hi⟩
+  obtain ⟨p, e, c, a⟩ := vsnprintf_ok (fmt.length + 1) _ [] out fmt args h0 hg
+  simp only [List.nil_append] at a
+  refine ⟨p, e, a.1, fun hle => ?_⟩
+  apply List.ext_getElem?
+  intro i
+  rw [List.getElem?_take]
+  have hc : p.cap = dest.length := c
+  split
+  · rename_i hi; exact a.2 i (by omega) hi
+  · rename_i hi; symm; exact List.getElem?_eq_none (by omega)
 
 /-- non-vacuity: the shapes the conversions produce are well-formed (`f`, `e`, `g` notations) -/
 example : BodyWF (ascii "3.14") ∧ BodyWF (ascii "0.001000") ∧ BodyWF (ascii "1234567890123") ∧
